@@ -2,7 +2,9 @@ package eng
 
 import (
 	"fmt"
+	"go/ast"
 	"os"
+	"time"
 	"go/types"
 	"sort"
 	"strings"
@@ -75,16 +77,30 @@ func (e *Engine) mkFact(bound, body *Term) *QFact {
 			return
 		}
 		var base *Term
+		coef := uint64(1)
 		if idx != bound {
-			base = c.Sub(idx, bound)
+			// idx = base + coef*bound ?
+			m := map[*Term]uint64{}
+			var k0 uint64
+			c.linearize(idx, 1, m, &k0)
+			co, ok := m[bound]
+			if !ok || co == 0 {
+				return
+			}
+			coef = co
+			delete(m, bound)
+			base = c.fromLinear(idx.S, m, k0)
 			if Mentions(base, bset) {
 				return
 			}
+			if base.IsConst() && base.Val == 0 {
+				base = nil
+			}
 		}
-		k := fmt.Sprintf("%d/%v", arr.ID, base)
+		k := fmt.Sprintf("%d/%v/%d", arr.ID, base, coef)
 		if !seen[k] {
 			seen[k] = true
-			f.Trig = append(f.Trig, Trigger{Arr: arr, Base: base})
+			f.Trig = append(f.Trig, Trigger{Arr: arr, Base: base, Coef: coef})
 		}
 	})
 	return f
@@ -211,6 +227,7 @@ func (e *Engine) VerifyFunc(key string) (res *FuncResult) {
 	rc := &rootCtx{fn: fn, key: key, spec: spec, nameCnt: map[string]int{}, abstracted: map[string]bool{}, params: map[string]SVal{}, used: map[string]bool{}}
 	e.cur = rc
 	e.setRgn(0)
+	rc.deadline = time.Now().Add(90 * time.Second)
 	defer func() {
 		res.Obligs = rc.obligs
 		res.Paths = rc.paths + 1
@@ -239,6 +256,7 @@ func (e *Engine) VerifyFunc(key string) (res *FuncResult) {
 		}
 		args = append(args, v)
 		rc.params[p.Name()] = SVal{V: v, T: p.Type()}
+		e.addExtents(st, v, p.Type())
 	}
 	for _, fv := range fn.FreeVars {
 		_ = fv
@@ -261,6 +279,22 @@ func (e *Engine) VerifyFunc(key string) (res *FuncResult) {
 	rc.entry = st.clone()
 	rc.inputs = e.inputTerms(fn, args, &rc.entry.heap)
 	rc.modRanges = e.modRangesOf(env, spec)
+	for _, items := range spec.Preserves {
+		for _, it := range items {
+			// targets(s): every object pointed to by an element of the pointer slice s
+			if call, ok := it.Expr.(*ast.CallExpr); ok {
+				if id, ok := call.Fun.(*ast.Ident); ok && id.Name == "targets" {
+					if sl, ok := env.eval(call.Args[0]).V.(Slice); ok {
+						rc.keepTargets = append(rc.keepTargets, sl)
+					}
+					continue
+				}
+			}
+			if r := regionOf(env.eval(it.Expr).V); r != nil {
+				rc.keepRegions = append(rc.keepRegions, r)
+			}
+		}
+	}
 	if spec.Decreases != nil {
 		rc.variant = env.asInt64(env.toType(env.eval(spec.Decreases.Expr), types.Typ[types.Int]))
 	}
@@ -273,6 +307,7 @@ func (e *Engine) VerifyFunc(key string) (res *FuncResult) {
 	}
 	onRet := func(st2 *State, rets []Value) {
 		rc.returns++
+		e.curExt = st2.ext
 		post := e.specEnvFor(fn, spec, args, rets, &st2.heap, &rc.entry.heap, false)
 		fr := &frame{fn: fn}
 		rc.outputs = e.outputTerms(fn, rets, &st2.heap)
